@@ -90,8 +90,13 @@ var images = map[string]imageClass{
 	"big":  {Name: "big", Files: with(objs("a", "c"), map[string]string{"manifest.yaml": baseManifest.YAML(), "b.yaml": bigWidget("b1", 400<<10) + "---\n" + bigWidget("b2", 400<<10) + "---\n" + bigWidget("b3", 400<<10), "z.yaml": pkgw.WidgetYAML("Widget", "z", "p1", "1", nil)})},
 	"big2": {Name: "big2", Files: with(objs("a", "c"), map[string]string{"manifest.yaml": baseManifest.YAML(), "b.yaml": bigWidget("b1", 300<<10) + "---\n" + bigWidget("b2", 500<<10) + "---\n" + bigWidget("b4", 300<<10) + "---\n" + bigWidget("b5", 300<<10) + "---\n" + bigWidget("b6", 300<<10)})},
 	// small, small, one object beyond the limit on its own, small
-	"huge":   {Name: "huge", Files: with(objs("a"), map[string]string{"manifest.yaml": baseManifest.YAML(), "b.yaml": bigWidget("b1", 10<<10) + "---\n" + bigWidget("b2", 20<<10) + "---\n" + bigWidget("b3", 1<<20) + "---\n" + bigWidget("b4", 10<<10)})},
-	"unique": {Name: "unique", Files: with(objs("a", "b"), map[string]string{"manifest.yaml": manifestWith("  - uniqueInScope: {}\n")}), Invalid: "constraint-unique"},
+	"huge": {Name: "huge", Files: with(objs("a"), map[string]string{"manifest.yaml": baseManifest.YAML(), "b.yaml": bigWidget("b1", 10<<10) + "---\n" + bigWidget("b2", 20<<10) + "---\n" + bigWidget("b3", 1<<20) + "---\n" + bigWidget("b4", 10<<10)})},
+	// manifests that declare images and ship a consistent manifest.lock.yaml: a valid one, and one
+	// whose manifest has field errors (a duplicated phase name) - with and without the lock file
+	"locked":          {Name: "locked", Files: with(objs("a", "b"), map[string]string{"manifest.yaml": baseManifest.YAML() + lockImages, "manifest.lock.yaml": lockFile})},
+	"dupphase":        {Name: "dupphase", Files: with(objs("a"), map[string]string{"manifest.yaml": dupPhaseManifest.YAML() + lockImages}), Invalid: "object"},
+	"dupphase-locked": {Name: "dupphase-locked", Files: with(objs("a"), map[string]string{"manifest.yaml": dupPhaseManifest.YAML() + lockImages, "manifest.lock.yaml": lockFile}), Invalid: "object"},
+	"unique":          {Name: "unique", Files: with(objs("a", "b"), map[string]string{"manifest.yaml": manifestWith("  - uniqueInScope: {}\n")}), Invalid: "constraint-unique"},
 }
 
 // constraint grammar: one manifest constraint entry = optional platform list x optional platform
